@@ -224,6 +224,18 @@ func main() {
 		plan := p.Gen(worlds.NewRand(planSeed), idx, *tier)
 		v, o := p.Run(plan, schedSeed, nil, false, false)
 		a.Evaluations++
+		if v.Class == "race" {
+			rep := raceReport()
+			if lib := libraryRaces(rep); rep != "" && len(lib) == 0 {
+				// only the world's own code is involved (two client tasks sharing a plain variable of the harness):
+				// not a statement about the library
+				v.Class, v.Sig, v.Detail = "", "", ""
+				a.Probes["harness-race-ignored"]++
+			} else if len(lib) > 0 {
+				v.Sig = "race " + raceSig(lib[0])
+				v.Detail += "\n" + clip(strings.Join(lib, "\n"), 6000)
+			}
+		}
 		if *hashes {
 			h := map[string]interface{}{"t": "h", "i": idx, "class": v.Class, "sig": v.Sig, "machinery": v.Machinery}
 			if o != nil {
@@ -263,18 +275,6 @@ func main() {
 		if v.Machinery != "" {
 			emit(map[string]interface{}{"t": "machinery", "i": idx, "detail": v.Machinery})
 			continue
-		}
-		if v.Class == "race" {
-			rep := raceReport()
-			if lib := libraryRaces(rep); rep != "" && len(lib) == 0 {
-				// only the world's own code is involved (two client tasks sharing a plain variable of the harness):
-				// not a statement about the library
-				v.Class, v.Sig, v.Detail = "", "", ""
-				a.Probes["harness-race-ignored"]++
-			} else if len(lib) > 0 {
-				v.Sig = "race " + raceSig(lib[0])
-				v.Detail += "\n" + clip(strings.Join(lib, "\n"), 6000)
-			}
 		}
 		if v.Class != "" {
 			a.Violations++
